@@ -210,6 +210,13 @@ Definition proj_eq (HS : rmat) : rmat := fun i j => if Nat.eqb i 0 then c0 F els
 Definition proj_ineq_cb (d : nat) (B : nat -> cmat) (L K' : cmat) : cmat :=
   lcb_hjk d B (calc_h_mat d B L) (calc_j_mat d B L) K'.
 
+(* the part of calc_proj_ineq_constraint between the oracle numpy.linalg.eigh (results: eigenvalues l, eigenvector matrix V) and the rebuild:
+   negative eigenvalues are set to 0, K' = V diag(l') V^dagger *)
+Definition clip_neg (l : list F) : list F := map (fun x => if fltb x (c0 F) then c0 F else x) l.
+Definition diag_of (l : list F) : cmat := fun i j => if Nat.eqb i j then zof (nth i l (c0 F)) else c0 Cx.
+Definition proj_ineq_kmat (d : nat) (l : list F) (V : cmat) : cmat :=
+  mmul (d * d - 1) (mmul (d * d - 1) V (diag_of (clip_neg l))) (cadj V).
+
 (* ---------------------------------------------------------------- Taylor partial sums of exp (to_gate = expm(hs)) *)
 Fixpoint mpow (n : nat) (L : rmat) (k : nat) : rmat :=
   match k with O => mid | S k' => mmul n L (mpow n L k') end.
@@ -244,6 +251,6 @@ Arguments tr2 {F} d X Y. Arguments probe_m {F} d Ba _ _. Arguments probe_p {F} d
 Arguments h_coef {F} d B L a. Arguments calc_h_mat {F} d B L _ _. Arguments j_coef {F} d B L a. Arguments calc_j_mat {F} d B L _ _.
 Arguments j_coef_prefix {F} d B L a. Arguments calc_j_mat_prefix {F} d B L _ _. Arguments calc_k_mat {F} d B L _ _.
 Arguments rebuild_cb {F} d B L _ _. Arguments rebuild_cb_prefix {F} d B L _ _. Arguments gksl {F} d B H K rho _ _. Arguments gksl_jump {F} d cs rho _ _.
-Arguments apply_cb {F} d L rho _ _. Arguments proj_eq {F} HS _ _. Arguments proj_ineq_cb {F} d B L K' _ _. Arguments herm_part {F} K _ _.
+Arguments apply_cb {F} d L rho _ _. Arguments proj_eq {F} HS _ _. Arguments proj_ineq_cb {F} d B L K' _ _. Arguments clip_neg {F} l. Arguments diag_of {F} l _ _. Arguments proj_ineq_kmat {F} d l V _ _. Arguments herm_part {F} K _ _.
 Arguments cmpow {F} n L k _ _. Arguments cpoly_sum {F} n c L N _ _. Arguments hp_sup {F} d M. Arguments ta_sup {F} d M.
 Arguments mpow {F} n L k _ _. Arguments poly_sum {F} n c L N _ _. Arguments tterm {F} frz n L k _ _. Arguments texp {F} frz n L N _ _.
